@@ -354,9 +354,20 @@ def build_lf(spec, rng=None):
     kw = {}
     if spec.get("bins", 1) > 1:
         kw["bins"] = spec["bins"]
+    if spec.get("hmm"):
+        kw["sites_independent"] = False  # PatchSiteDistribution / SiteHmm instead of the plain bin mixture
+    if spec.get("loci"):
+        kw["loci"] = [l["name"] for l in spec["loci"]]
     lf = sm.make_likelihood_function(tree, **kw)
-    aln = cogent3.make_aligned_seqs(spec["seqs"], moltype=spec["moltype"], new_type=spec.get("new_type", False))
-    lf.set_alignment(aln)
+    if spec.get("loci"):
+        lf.set_alignment([cogent3.make_aligned_seqs(l["seqs"], moltype=spec["moltype"], new_type=spec.get("new_type", False))
+                          for l in spec["loci"]])
+        for l in spec["loci"]:
+            if l.get("mprobs"):
+                lf.set_motif_probs(l["mprobs"], locus=l["name"])
+    else:
+        aln = cogent3.make_aligned_seqs(spec["seqs"], moltype=spec["moltype"], new_type=spec.get("new_type", False))
+        lf.set_alignment(aln)
     if spec.get("mprobs"):
         lf.set_motif_probs(spec["mprobs"])
     if not spec.get("rules") and rng is not None:
@@ -378,9 +389,11 @@ def build_lf(spec, rng=None):
 # --------------------------------------------------------------------------
 # extraction of the implementation's own numeric inputs
 # --------------------------------------------------------------------------
-def _root_probs(lf, bin_name):
+def _root_probs(lf, bin_name, locus=None):
     name = "wprobs" if "wprobs" in lf.defn_for else "mprobs"
     kw = {"edge": "root"}
+    if locus is not None:
+        kw["locus"] = locus
     if bin_name is not None:
         kw["bin"] = bin_name
     try:
@@ -390,7 +403,7 @@ def _root_probs(lf, bin_name):
         return lf.get_param_value(name, **kw)
 
 
-def extract(lf, spec, profiles="oracle"):
+def extract(lf, spec, profiles="oracle", locus=None):
     """everything the pruning model needs, as python floats / ints:
     tree (with edge indices), per-bin P matrices and root probabilities, bin probabilities,
     alignment columns as symbol indices and the symbol profiles.
@@ -422,14 +435,16 @@ def extract(lf, spec, profiles="oracle"):
         Ps = []
         for e in edges:
             kw = {} if b is None else {"bin": b}
+            if locus is not None:
+                kw["locus"] = locus
             Ps.append(numpy.array(lf.get_psub_for_edge(e, **kw).array, dtype=float))
-        bins.append(dict(P=Ps, pi=numpy.array(_root_probs(lf, b), dtype=float)))
+        bins.append(dict(P=Ps, pi=numpy.array(_root_probs(lf, b, locus), dtype=float)))
     bprobs = [float(x) for x in lf.get_param_value("bprobs")] if bin_names != [None] else [1.0]
     # alignment columns (what the implementation was given)
     seqs = spec["seqs"]
     ncols = len(next(iter(seqs.values()))) // mlen
     symbols, symidx, cols = [], {}, []
-    lht = lf.get_param_value("lht") if profiles == "impl" else None
+    lht = lf.get_param_value("lht", **({} if locus is None else {"locus": locus})) if profiles == "impl" else None
     for c in range(ncols):
         col = []
         for t in tips:
